@@ -10,13 +10,14 @@ import sysmodels as S
 
 
 class MailboxProgram(Program):
-    def __init__(self, sysm, cap, scripts, max_steps=60, handler_pending=0, strategy='RestartOnly', timeout=False):
+    def __init__(self, sysm, cap, scripts, max_steps=60, handler_pending=0, strategy='RestartOnly', timeout=False, pre=()):
         super().__init__(sysm, max_steps=max_steps)
         self.cap = cap                    # None = unbounded, int = bounded(n), 'sym' = bounded(n) with symbolic n
         self.cap_max = 3
         self.scripts = scripts            # {client: [ops]}
         self.handler_pending = handler_pending
         self.sys.handler_pending = handler_pending
+        self.pre = tuple(pre)
 
     # handles live in st.meta[('h', name)] = oid of an object holding the handle value
     def H(self, st, name):
@@ -56,6 +57,12 @@ class MailboxProgram(Program):
         self.chan_oid = next(ev[1] for ev in st.events if ev[0] == 'chan_new')
         self.add_task(st, 'loop', loop)
         self.put(st, 'addr', addr)
+        for i, op in enumerate(self.pre):
+            # handles prepared before the tasks start (synchronous operations only)
+            for s2, fut in self.start_op(st, 'pre', i, op):
+                if fut is not None or s2 is not st:
+                    raise Unsupported("pre-operations must be synchronous")
+        st.events[:] = [e for e in st.events if not (e[0] == 'op_end' and e[1] == 'pre')]
         for name, script in self.scripts.items():
             self.add_task(st, name, UNIT, kind='client', script=script)
         st.events.append(('setup_done',))
@@ -273,7 +280,9 @@ def oracle_stop_barrier(tr, scripts):
 
 def oracle_backpressure(tr, cap, scripts, want_counts=False):
     """C12: at every moment #(waiting sends that returned Ok) - #(of those already taken out of the mailbox) <= n;
-    on an unbounded mailbox a send never waits (returns at its first poll); stop never waits."""
+    on an unbounded mailbox a send never waits (returns at its first poll).  A message is taken out of the mailbox in
+    the same poll in which its handler is entered, so handler entry is used as the observable dequeue event (this also
+    works on native traces)."""
     v = []
     if cap is None:
         for o in _ops(tr):
@@ -282,30 +291,16 @@ def oracle_backpressure(tr, cap, scripts, want_counts=False):
                 if scheds:
                     v.append(f"send on an unbounded mailbox needed more than one poll ({len(scheds) + 1})")
         return v
-    # payload identity: chan_push events carry a description; we count in order: FIFO queue => k-th pop matches k-th push
-    pushes = []      # (index, waiting?, ok?)
+    entered = {}
     for i, e in enumerate(tr):
-        if e[0] == 'chan_push' and e[3] == 'ok':
-            pushes.append((i, e[2] == 'wait'))
-    pops = [i for i, e in enumerate(tr) if e[0] == 'chan_pop' and e[2] != 'closed']
-    send_ok = []     # (return index, push number)
-    # associate each waiting send op with its push: the chan_push between its begin and end by the same client
+        if e[0] == 'user_call' and e[1] == 'handle':
+            entered.setdefault(e[4], i)
+    sends = []
     for o in _ops(tr):
-        if o['kind'] in ('send', 'sender_send', 'weak_send') and o['end'] is not None and o['result'].startswith('Ok'):
-            mine = [k for k, (pi, w) in enumerate(pushes) if w and o['begin'] <= pi <= o['end']]
-            # several clients may interleave: pick the push made while this client was scheduled
-            cand = [k for k in mine if _sched_owner(tr, pushes[k][0]) == o['client']]
-            if len(cand) != 1:
-                continue
-            send_ok.append((o['end'], cand[0]))
-    for (ri, k) in send_ok:
-        # at time ri: returned-ok sends whose payload is still queued
-        behind = 0
-        for (rj, kj) in send_ok:
-            if rj <= ri:
-                popped = len([p for p in pops if p < ri]) > kj
-                if not popped:
-                    behind += 1
+        if o['kind'] in ('send', 'sender_send', 'weak_send') and o['end'] is not None and str(o['result']).startswith('Ok'):
+            sends.append((o['end'], _msg_of(scripts[o['client']][o['pc']])))
+    for (ri, _m) in sends:
+        behind = sum(1 for (rj, mj) in sends if rj <= ri and not (mj in entered and entered[mj] < ri))
         if want_counts:
             v.append(behind)
         elif behind > cap:
